@@ -131,7 +131,7 @@ def tlc_mc(cwd, spec, cfg, workers=None, timeout=600, coverage=False, heap=None,
     if d:
         res["depth"] = int(d.group(1))
     res["complete"] = ("Model checking completed. No error has been found." in out)
-    res["violated"] = re.findall(r"Error: (Invariant \S+ is violated|Action property \S+ is violated|Temporal properties were violated|Deadlock reached)", out)
+    res["violated"] = re.findall(r"Error: (Invariant \S+ is violated|Action property \S+ is violated|Temporal properties were violated|Temporal property \S+ was violated|Deadlock reached)", out)
     if rc == 124 and not allow_incomplete:
         raise Machinery("TLC timed out after %ds on %s/%s" % (timeout, spec, cfg))
     return res
